@@ -33,7 +33,7 @@ PROPERTY = "C01"
 LEVEL = "exploration"
 IMPORTS_IOFLO = False          # the check itself never imports ioflo in-process
 RULE = ("solo: every module found under <repo>/ioflo (exhaustive) + `import ioflo`, each in a clean "
-        "subprocess, normally started, started with -S (no site / .pth preloads), started with -OO (asserts and docstrings stripped) started without a standard output (fd 1 closed, sys.stdout is None), and with the import made by a worker thread of a normally started interpreter and started with an empty environment (each of the last two - quick: every package and a third of the modules, thorough: all); orders: Hypothesis-drawn permutations of subsets of 2-12 modules and of all modules, imported "
+        "subprocess, normally started, started with -S (no site / .pth preloads), started with -OO (asserts and docstrings stripped) started without a standard output (fd 1 closed, sys.stdout is None), and with the import made by a worker thread of a normally started interpreter started with an empty environment, and started with -bb (each of the last three - quick: every package and a third of the modules, thorough: all); orders: Hypothesis-drawn permutations of subsets of 2-12 modules and of all modules, imported "
         "one after another in one fresh process, each outcome compared with the module's solo outcome. "
         "non-trivial solo = module that is not a package __init__ and imports another ioflo module; "
         "non-trivial order = modules from >= 2 different subpackages; distinct = module / module sequence")
@@ -137,7 +137,7 @@ def solo(module, cwd, bare=False):
         code = ("import sys, threading, traceback\nsys.path.insert(0, %r)\nbad = []\n"
                 "def load():\n    try:\n        import %s\n    except BaseException:\n        traceback.print_exc()\n        bad.append(1)\n"
                 "t = threading.Thread(target=load)\nt.start()\nt.join()\nsys.exit(1 if bad else 0)\n") % (env.REPO, module)
-    rc, out, err = _run(code, cwd, {"OO": ("-OO",), "nostdout": ("nostdout",), "thread": (), "noenv": ("noenv",)}.get(bare, ("-S",) if bare else ()))
+    rc, out, err = _run(code, cwd, {"OO": ("-OO",), "nostdout": ("nostdout",), "thread": (), "noenv": ("noenv",), "bb": ("-bb",)}.get(bare, ("-S",) if bare else ()))
     if rc == 0 and "Traceback (most recent call last)" not in err:
         return "ok", {}
     if rc == -999:
@@ -184,12 +184,13 @@ def bare_failures(module, rel, outcome, det, bare_outcome, bare_det, flag=True):
     if bare_outcome in ("ModuleNotFoundError", "ImportError") and m and m.group(1).split(".")[0] != "ioflo":
         return []
     inner = bare_det.get("inner")
-    tag = {"OO": "import-OO", "nostdout": "import-nostdout", "thread": "import-thread", "noenv": "import-noenv"}.get(flag, "import-bare")
+    tag = {"OO": "import-OO", "nostdout": "import-nostdout", "thread": "import-thread", "noenv": "import-noenv", "bb": "import-bb"}.get(flag, "import-bare")
     sig = "%s:%s:%s" % (tag, module, bare_outcome) if (not inner or inner == rel) else "%s:%s@%s" % (tag, bare_outcome, inner)
     how = {"OO": "-OO (asserts and docstrings stripped)",
            "nostdout": "its standard output closed (sys.stdout is None, as under a daemon or pythonw)",
            "thread": "nothing special, the import being made by a worker thread",
-           "noenv": "an empty environment (no HOME, PATH, LANG: env -i, an init unit, a container entry point)"}.get(
+           "noenv": "an empty environment (no HOME, PATH, LANG: env -i, an init unit, a container entry point)",
+           "bb": "-bb (comparisons between bytes and str are errors)"}.get(
                flag, "-S (nothing preloaded by site / .pth hooks)")
     what = ("`import %s` alone gives %s in a normally started interpreter but %s in one started with %s: %s "
             "[innermost ioflo file: %s]" % (module, outcome, bare_outcome, how, last, inner or "?"))
@@ -222,7 +223,15 @@ def work(shard, seed, tier):
                 thrs = list(ex.map(lambda m: solo(m[0], cwd, bare="thread"), ttodo))
                 etodo = [m for k, m in enumerate(todo) if tier != "quick" or m[2] or (k + seed) % 3 == 1]
                 envs = list(ex.map(lambda m: solo(m[0], cwd, bare="noenv"), etodo))
+                btodo = [m for k, m in enumerate(todo) if tier != "quick" or m[2] or (k + seed) % 3 == 2]
+                bbs = list(ex.map(lambda m: solo(m[0], cwd, bare="bb"), btodo))
             first = dict((m[0], r) for m, r in zip(todo, results))
+            for (module, rel, is_init), (boutcome_, bdet_) in zip(btodo, bbs):
+                outcome, det = first[module]
+                acc.case(key=("solo-bb", module), nontrivial=nontrivial_module(rel, is_init),
+                         classes=["solo-bb", "solo-bb:" + ("ok" if boutcome_ == "ok" else boutcome_)], sample=None)
+                for sig, what in bare_failures(module, rel, outcome, det, boutcome_, bdet_, flag="bb"):
+                    acc.fail(sig, what, {"solo": module, "bare": "bb"})
             for (module, rel, is_init), (eoutcome, edet) in zip(etodo, envs):
                 outcome, det = first[module]
                 acc.case(key=("solo-noenv", module), nontrivial=nontrivial_module(rel, is_init),
